@@ -592,7 +592,7 @@ func (w *Worker) conv(tdst, tsrc types.Type, x Value) Value {
 	case *types.Slice:
 		// []byte/[]rune -> string
 		if b, ok := ud.(*types.Basic); ok && b.Info()&types.IsString != 0 {
-			s := x.(SliceV)
+			s := w.concGeom(x.(SliceV))
 			n := w.concInt(s.Len, "[]byte to string")
 			eb := us.Elem().Underlying().(*types.Basic)
 			if eb.Kind() == types.Uint8 {
